@@ -38,9 +38,37 @@ class InjectedIndexError(InjectedFault, IndexError):
     pass
 
 
+class InjectedStopIteration(InjectedFault, StopIteration):
+    pass
+
+
+class InjectedRuntimeError(InjectedFault, RuntimeError):
+    pass
+
+
+class InjectedAttributeError(InjectedFault, AttributeError):
+    pass
+
+
+class InjectedOverflowError(InjectedFault, OverflowError):
+    pass
+
+
+class InjectedAssertionError(InjectedFault, AssertionError):
+    pass
+
+
+class InjectedRecursionError(InjectedFault, RecursionError):
+    pass
+
+
 # what a user's container or callback may raise: the type must not matter to how the failure is reported
 FAULT_TYPES = {"plain": InjectedFault, "zerodiv": InjectedZeroDivisionError, "key": InjectedKeyError,
-               "value": InjectedValueError, "type": InjectedTypeError, "os": InjectedOSError, "index": InjectedIndexError}
+               "value": InjectedValueError, "type": InjectedTypeError, "os": InjectedOSError, "index": InjectedIndexError,
+               "stop": InjectedStopIteration, "runtime": InjectedRuntimeError, "attr": InjectedAttributeError,
+               "overflow": InjectedOverflowError, "assertion": InjectedAssertionError, "recursion": InjectedRecursionError}
+FAULT_NAMES = ("plain", "zerodiv", "key", "value", "type", "os", "index", "stop", "runtime", "attr", "overflow",
+               "assertion", "recursion")
 
 
 class SimStall(Exception):
